@@ -286,7 +286,7 @@ func checkRemoveFirst(p *Prog, r *Report, pc *panicChecker) {
 		r.fail("anchor (*SoftCollection).Remove not found")
 		return
 	}
-	n := checkSpliceLoops(p, r, pc, f)
+	n := checkSpliceLoopsScope(p, r, pc, f)
 	r.count("splices in SoftCollection.Remove", n)
 	bf := pc.bf(f)
 	for _, s := range findSplices(bf) {
